@@ -26,6 +26,10 @@ theorem to_dyn_unlisted_never_convert (callerFeats rrtkFeats : List String) :
     toDynHasArmIn callerFeats rrtkFeats .arcMutex = false := by
   simp [toDynHasArmIn, Gen.toDynDefs, RefVariant.name, featOn]
 
+/-- today exactly one definition of the implementing macro is compiled into each rrtk build -/
+theorem to_dyn_one_definition_per_build :
+    ∀ r ∈ rrtkBuilds, (Gen.toDynDefs.filter (fun d => itemCfgHolds r d.1)).length = 1 := by decide
+
 /-- today an `Arc<Mutex>` Reference has no `to_dyn!` arm: the refined heap model and the abstract model both panic -/
 example : Heap.toDyn ["std"] [⟨.arcMutex, 5, false, 1⟩] ⟨.arcMutex, 0, false⟩ = .error (.panic .unimpl) := by rfl
 example : heapRun ["alloc", "std"] (RState.init .arcMutex) [.cl 0, .dy 1, .rd 0] = [.done, .panic .unimpl] := by rfl
